@@ -335,6 +335,7 @@ class Ev:
                 if a[2][0] != 'ref': raise EvalErr('assignment target')
                 v = r if op == '=' else infix(op[:-1], l, r)
                 self.vars[a[2][1]] = v
+                self.funcs.pop(a[2][1], None)     # one map of names: the binding replaces a context function of that name
                 return ('none',)
             return infix(op, l, r)
         if k == 'cond':
